@@ -16,13 +16,13 @@
     model with it; an order the predicates forbid makes the tie obligation fail.
 
     Go code modelled (line numbers of the current tree):
-      cmd/wrgl/commit_cmd.go   commit (179-246): ref.GetHead; ingestTable; objects.SaveCommit; saveHead
-                               commitWithTable (310-335), commitTempBranch (248-254: ref.DeleteHead + commit)
-      pkg/ingest/inserter.go   insertBlock (69-116): per block SaveBlock then SaveBlockIndex, any
-                               interleaving between workers; ingestTableFromBlocks (175-243):
+      cmd/wrgl/commit_cmd.go   commit (180-247): ref.GetHead; ingestTable; objects.SaveCommit; saveHead
+                               commitWithTable (311-336), commitTempBranch (249-255: ref.DeleteHead + commit)
+      pkg/ingest/inserter.go   insertBlock (69-): per block SaveBlock then SaveBlockIndex, any
+                               interleaving between workers; ingestTableFromBlocks (180-):
                                SaveTableIndex, SaveTableProfile (only if the sorter has a profiler), SaveTable
-      cmd/wrgl/merge_cmd.go    runMerge fast-forward (ref.SaveRef only), ff=never (createMergeCommit),
-                               commitMergeResult (IngestTableFromBlocks with a fresh sorter => no profile
+      cmd/wrgl/merge_cmd.go    runMerge (163-): identical commits (nothing), fast-forward (ref.SaveRef
+                               only), ff=never (createMergeCommit), commitMergeResult (518-: IngestTableFromBlocks with a fresh sorter => no profile
                                inside ingest; ingest.ProfileTable AFTER the table; createMergeCommit:
                                SaveCommit; ref.CommitMerge)
       pkg/api/utils/object_receiver.go  saveBlock, saveTable (IndexTable, ProfileTable, SaveTable),
@@ -48,10 +48,10 @@
              | (5 r cid)                      merge, fast-forward
              | (6 (pobj ...) ((r cid force) ...))   fetch: receive the packfile objects, then save refs
              | (7)                            prune
-      case   = (universe setup op op2)   universe: ignored by the model (row-level description of
-               the tables for the Go side); setup = ((op (n)?) ...) run to completion or crashed
-               after n writes; op = the operation under test; op2 = the same operation as re-run
-               (fresh nonce)
+      case   = (universe setup op op2 flags)   universe: ignored by the model (row-level
+               description of the tables for the Go side); setup = ((op (n)?) ...) run to completion
+               or crashed after n writes; op = the operation under test; op2 = the same operation as
+               re-run (fresh nonce); flags = (workers cli), ignored by the model
       write  = (kind id) with kind 0 PutBlock 1 PutBlkIdx 2 PutTblIdx 3 PutProf 4 PutTable 5 PutCommit
                6 SetRefLog (id = (r cid full)) 7 DelRef 8 DelBlock 9 DelBlkIdx 10 DelTable 11 DelTblIdx
                12 DelProf 13 DelCommit
@@ -60,9 +60,13 @@
         trace    canonical write trace: maximal runs of {PutBlock,PutBlkIdx}, of
                  {DelTable,DelTblIdx,DelProf}, of DelBlock, of DelBlkIdx, of DelCommit are sorted by
                  (id, kind) (worker interleaving / key = hash order are not observable)
-        verdicts one (inv rerun) pair per prefix length n = 0..L: inv = the crash state satisfies Inv,
-                 rerun = op2 from the crash state succeeds, ends in an Inv state and agrees with the
-                 uninterrupted run on ref |-> history shape
+        verdicts one (inv rerun fault) triple per prefix length n = 0..L: inv = the crash state
+                 satisfies Inv, rerun = op2 from the crash state returns what op returned, ends in an
+                 Inv state and agrees with the uninterrupted run on ref |-> history shape (for n = L
+                 this is "the completed operation is idempotent": false for commit, true for the
+                 others); fault =
+                 an error injected into write n makes the op return an error and leaves exactly
+                 the crash state (always 1 in the model: that is what a write list means)
         refs     ((r shape) ...) of the uninterrupted final state, sorted
         counts   (#commits #tables #tblidx #prof #blocks #blkidx) of the uninterrupted final state *)
 From Coq Require Import List NArith Bool String.
@@ -73,51 +77,86 @@ Local Open Scope N_scope.
 
 (* ------------------------------------------------------------------ skeletons *)
 
+(** Call names are encoded as numbers ([encode], table [names]) before they reach the model,
+    so that the extracted code contains no Coq [string]: a skeleton is a [list N] of codes,
+    names the model does not know are dropped. *)
 Record skels := mkSkels {
-  sk_ingest : list string;         (* Inserter.ingestTableFromBlocks *)
-  sk_insert_block : list string;   (* Inserter.insertBlock *)
-  sk_recv_table : list string;     (* ObjectReceiver.saveTable *)
-  sk_index_table : list string;    (* ingest.IndexTable *)
-  sk_recv_commit : list string;    (* ObjectReceiver.saveCommit *)
-  sk_fetch : list string;          (* fetch.Fetch *)
-  sk_prune : list string;          (* prune.Prune *)
-  sk_prune_tables : list string;   (* prune.pruneTables *)
-  sk_prune_commit_order : string;  (* what the commit-deletion loop ranges over *)
-  sk_commit : list string;         (* cmd/wrgl commit *)
-  sk_commit_with_table : list string; (* cmd/wrgl commitWithTable *)
-  sk_merge_result : list string;   (* cmd/wrgl commitMergeResult *)
-  sk_create_merge : list string    (* cmd/wrgl createMergeCommit *)
+  sk_ingest : list N;         (* Inserter.ingestTableFromBlocks *)
+  sk_insert_block : list N;   (* Inserter.insertBlock *)
+  sk_recv_table : list N;     (* ObjectReceiver.saveTable *)
+  sk_index_table : list N;    (* ingest.IndexTable *)
+  sk_recv_commit : list N;    (* ObjectReceiver.saveCommit *)
+  sk_fetch : list N;          (* fetch.Fetch *)
+  sk_prune : list N;          (* prune.Prune *)
+  sk_prune_tables : list N;   (* prune.pruneTables *)
+  sk_prune_commit_order : N;  (* what the commit-deletion loop ranges over *)
+  sk_commit : list N;         (* cmd/wrgl commit *)
+  sk_commit_with_table : list N; (* cmd/wrgl commitWithTable *)
+  sk_merge_result : list N;   (* cmd/wrgl commitMergeResult *)
+  sk_create_merge : list N    (* cmd/wrgl createMergeCommit *)
 }.
 
-Definition n_SaveBlock := "objects.SaveBlock"%string.
-Definition n_SaveBlockIndex := "objects.SaveBlockIndex"%string.
-Definition n_SaveTableIndex := "objects.SaveTableIndex"%string.
-Definition n_SaveTableProfile := "objects.SaveTableProfile"%string.
-Definition n_SaveTable := "objects.SaveTable"%string.
-Definition n_IndexTable := "ingest.IndexTable"%string.
-Definition n_ProfileTable := "ingest.ProfileTable"%string.
-Definition n_CommitExist := "objects.CommitExist"%string.
-Definition n_SaveCommit := "objects.SaveCommit"%string.
-Definition n_fetchObjects := "fetchObjects"%string.
-Definition n_saveFetchedRefs := "saveFetchedRefs"%string.
-Definition n_pruneTables := "pruneTables"%string.
-Definition n_DeleteBlock := "objects.DeleteBlock"%string.
-Definition n_DeleteBlockIndex := "objects.DeleteBlockIndex"%string.
-Definition n_DeleteCommit := "objects.DeleteCommit"%string.
-Definition n_DeleteTable := "objects.DeleteTable"%string.
-Definition n_DeleteTableIndex := "objects.DeleteTableIndex"%string.
-Definition n_DeleteTableProfile := "objects.DeleteTableProfile"%string.
-Definition n_childrenFirst := "childrenFirst"%string.
-Definition n_ingestTable := "ingestTable"%string.
-Definition n_saveHead := "saveHead"%string.
-Definition n_IngestTableFromBlocks := "ingest.IngestTableFromBlocks"%string.
-Definition n_createMergeCommit := "createMergeCommit"%string.
-Definition n_CommitMerge := "ref.CommitMerge"%string.
+Definition n_SaveBlock : N := 1.
+Definition n_SaveBlockIndex : N := 2.
+Definition n_SaveTableIndex : N := 3.
+Definition n_SaveTableProfile : N := 4.
+Definition n_SaveTable : N := 5.
+Definition n_IndexTable : N := 6.
+Definition n_ProfileTable : N := 7.
+Definition n_CommitExist : N := 8.
+Definition n_SaveCommit : N := 9.
+Definition n_fetchObjects : N := 10.
+Definition n_saveFetchedRefs : N := 11.
+Definition n_pruneTables : N := 12.
+Definition n_DeleteBlock : N := 13.
+Definition n_DeleteBlockIndex : N := 14.
+Definition n_DeleteCommit : N := 15.
+Definition n_DeleteTable : N := 16.
+Definition n_DeleteTableIndex : N := 17.
+Definition n_DeleteTableProfile : N := 18.
+Definition n_childrenFirst : N := 19.
+Definition n_ingestTable : N := 20.
+Definition n_saveHead : N := 21.
+Definition n_IngestTableFromBlocks : N := 22.
+Definition n_createMergeCommit : N := 23.
+Definition n_CommitMerge : N := 24.
 
-Definition norm (vocab : list string) (sk : list string) : list string :=
-  filter (fun x => memb String.eqb x vocab) sk.
-Definition one_of (allowed : list (list string)) (l : list string) : bool :=
-  memb (list_eqb String.eqb) l allowed.
+Definition names : list (string * N) := [
+  ("objects.SaveBlock"%string, n_SaveBlock);
+  ("objects.SaveBlockIndex"%string, n_SaveBlockIndex);
+  ("objects.SaveTableIndex"%string, n_SaveTableIndex);
+  ("objects.SaveTableProfile"%string, n_SaveTableProfile);
+  ("objects.SaveTable"%string, n_SaveTable);
+  ("ingest.IndexTable"%string, n_IndexTable);
+  ("ingest.ProfileTable"%string, n_ProfileTable);
+  ("objects.CommitExist"%string, n_CommitExist);
+  ("objects.SaveCommit"%string, n_SaveCommit);
+  ("fetchObjects"%string, n_fetchObjects);
+  ("saveFetchedRefs"%string, n_saveFetchedRefs);
+  ("pruneTables"%string, n_pruneTables);
+  ("objects.DeleteBlock"%string, n_DeleteBlock);
+  ("objects.DeleteBlockIndex"%string, n_DeleteBlockIndex);
+  ("objects.DeleteCommit"%string, n_DeleteCommit);
+  ("objects.DeleteTable"%string, n_DeleteTable);
+  ("objects.DeleteTableIndex"%string, n_DeleteTableIndex);
+  ("objects.DeleteTableProfile"%string, n_DeleteTableProfile);
+  ("childrenFirst"%string, n_childrenFirst);
+  ("ingestTable"%string, n_ingestTable);
+  ("saveHead"%string, n_saveHead);
+  ("ingest.IngestTableFromBlocks"%string, n_IngestTableFromBlocks);
+  ("createMergeCommit"%string, n_createMergeCommit);
+  ("ref.CommitMerge"%string, n_CommitMerge)].
+Definition code_of (x : string) : option N :=
+  match find (fun e => String.eqb (fst e) x) names with Some e => Some (snd e) | None => None end.
+Definition encode (sk : list string) : list N :=
+  flat_map (fun x => match code_of x with Some c => [c] | None => [] end) sk.
+(** the marker of the commit-deletion loop; anything but childrenFirst is 0 *)
+Definition encode_order (s : string) : N := match code_of s with Some c => c | None => 0 end.
+
+Definition norm (vocab : list N) (sk : list N) : list N :=
+  filter (fun x => memb N.eqb x vocab) sk.
+Definition one_of (allowed : list (list N)) (l : list N) : bool :=
+  memb (list_eqb N.eqb) l allowed.
 
 Definition vocab_ingest := [n_SaveTableIndex; n_SaveTableProfile; n_SaveTable].
 Definition vocab_insert_block := [n_SaveBlock; n_SaveBlockIndex].
@@ -133,38 +172,38 @@ Definition vocab_merge_result := [n_IngestTableFromBlocks; n_ProfileTable; n_cre
 Definition vocab_create_merge := [n_SaveCommit; n_CommitMerge].
 
 (** the orders under which the theorems are proved *)
-Definition ingest_skel_ok (sk : list string) : bool :=
+Definition ingest_skel_ok (sk : list N) : bool :=
   one_of [[n_SaveTableIndex; n_SaveTableProfile; n_SaveTable];
           [n_SaveTableProfile; n_SaveTableIndex; n_SaveTable]] (norm vocab_ingest sk).
-Definition insert_block_skel_ok (sk : list string) : bool :=
+Definition insert_block_skel_ok (sk : list N) : bool :=
   one_of [[n_SaveBlock; n_SaveBlockIndex]; [n_SaveBlockIndex; n_SaveBlock]] (norm vocab_insert_block sk).
-Definition recv_table_skel_ok (sk : list string) : bool :=
+Definition recv_table_skel_ok (sk : list N) : bool :=
   one_of [[n_IndexTable; n_ProfileTable; n_SaveTable];
           [n_ProfileTable; n_IndexTable; n_SaveTable]] (norm vocab_recv_table sk).
-Definition index_table_skel_ok (sk : list string) : bool :=
+Definition index_table_skel_ok (sk : list N) : bool :=
   one_of [[n_SaveBlockIndex; n_SaveTableIndex]] (norm vocab_index_table sk).
-Definition recv_commit_skel_ok (sk : list string) : bool :=
+Definition recv_commit_skel_ok (sk : list N) : bool :=
   one_of [[n_CommitExist; n_SaveCommit]] (norm vocab_recv_commit sk).
-Definition fetch_skel_ok (sk : list string) : bool :=
+Definition fetch_skel_ok (sk : list N) : bool :=
   one_of [[n_fetchObjects; n_saveFetchedRefs]] (norm vocab_fetch sk).
-Definition prune_skel_ok (sk : list string) : bool :=
+Definition prune_skel_ok (sk : list N) : bool :=
   one_of [[n_pruneTables; n_DeleteBlock; n_DeleteBlockIndex; n_DeleteCommit];
           [n_pruneTables; n_DeleteBlockIndex; n_DeleteBlock; n_DeleteCommit]] (norm vocab_prune sk).
-Definition prune_tables_skel_ok (sk : list string) : bool :=
+Definition prune_tables_skel_ok (sk : list N) : bool :=
   one_of [[n_DeleteTable; n_DeleteTableIndex; n_DeleteTableProfile];
           [n_DeleteTable; n_DeleteTableProfile; n_DeleteTableIndex]] (norm vocab_prune_tables sk).
-Definition prune_commit_order_ok (s : string) : bool := String.eqb s n_childrenFirst.
-Definition commit_skel_ok (sk : list string) : bool :=
+Definition prune_commit_order_ok (c : N) : bool := N.eqb c n_childrenFirst.
+Definition commit_skel_ok (sk : list N) : bool :=
   one_of [[n_ingestTable; n_SaveCommit; n_saveHead]] (norm vocab_commit sk).
-Definition commit_with_table_skel_ok (sk : list string) : bool :=
+Definition commit_with_table_skel_ok (sk : list N) : bool :=
   one_of [[n_SaveCommit; n_saveHead]] (norm vocab_commit_with_table sk).
-Definition merge_result_skel_ok (sk : list string) : bool :=
+Definition merge_result_skel_ok (sk : list N) : bool :=
   one_of [[n_IngestTableFromBlocks; n_ProfileTable; n_createMergeCommit]] (norm vocab_merge_result sk).
-Definition create_merge_skel_ok (sk : list string) : bool :=
+Definition create_merge_skel_ok (sk : list N) : bool :=
   one_of [[n_SaveCommit; n_CommitMerge]] (norm vocab_create_merge sk).
 
 (** receive = saveTable + IndexTable + saveCommit *)
-Definition recv_skel_ok (tbl idx com : list string) : bool :=
+Definition recv_skel_ok (tbl idx com : list N) : bool :=
   recv_table_skel_ok tbl && index_table_skel_ok idx && recv_commit_skel_ok com.
 
 Definition skels_ok (sk : skels) : bool :=
@@ -176,9 +215,16 @@ Definition skels_ok (sk : skels) : bool :=
   commit_skel_ok (sk_commit sk) && commit_with_table_skel_ok (sk_commit_with_table sk) &&
   merge_result_skel_ok (sk_merge_result sk) && create_merge_skel_ok (sk_create_merge sk).
 
-(** the skeletons of the current tree (what the translator emits today; the extraction uses
-    the regenerated ones where they exist) *)
-Definition base_skels : skels := mkSkels
+(** from the strings of gen/Extracted.v to the model's skeletons *)
+Definition mk_skels (ing blk rtab idx rcom fetch prune ptab : list string) (order : string)
+    (com cwt mres cmerge : list string) : skels :=
+  mkSkels (encode ing) (encode blk) (encode rtab) (encode idx) (encode rcom) (encode fetch)
+    (encode prune) (encode ptab) (encode_order order)
+    (encode com) (encode cwt) (encode mres) (encode cmerge).
+
+(** the skeletons of the current tree (what the translator emits today, plus the cmd/wrgl
+    functions commit, commitWithTable, commitMergeResult, createMergeCommit) *)
+Definition base_skels : skels := Eval vm_compute in mk_skels
   ["i.wg.Wait"; "close"; "i.sortBlocks"; "objects.SaveTableIndex"; "objects.SaveTableProfile"; "objects.SaveTable"]%string
   ["objects.SaveBlock"; "objects.SaveBlockIndex"]%string
   ["objects.ReadTableFrom"; "ingest.IndexTable"; "ingest.ProfileTable"; "objects.SaveTable"]%string
@@ -193,11 +239,17 @@ Definition base_skels : skels := mkSkels
   ["ingest.IngestTableFromBlocks"; "objects.GetTable"; "ingest.ProfileTable"; "createMergeCommit"]%string
   ["objects.SaveCommit"; "ref.CommitMerge"]%string.
 
+(** skeletons regenerated from the source for the functions the translator extracts today,
+    the cmd/wrgl ones from the current tree; used by gen/Tie_C13.v and extract/Ex_C13.v *)
+Definition tie_skels (ing blk rtab idx rcom fetch prune ptab : list string) (order : string) : skels :=
+  mkSkels (encode ing) (encode blk) (encode rtab) (encode idx) (encode rcom) (encode fetch)
+    (encode prune) (encode ptab) (encode_order order)
+    (sk_commit base_skels) (sk_commit_with_table base_skels)
+    (sk_merge_result base_skels) (sk_create_merge base_skels).
+
 (** the tree before commit 2b449a8 (table object stored BEFORE its index and profile) *)
-Definition prefix_ingest_skel : list string :=
-  ["objects.SaveTable"; "objects.SaveTableIndex"; "objects.SaveTableProfile"]%string.
-Definition prefix_recv_table_skel : list string :=
-  ["objects.ReadTableFrom"; "objects.SaveTable"; "ingest.IndexTable"; "ingest.ProfileTable"]%string.
+Definition prefix_ingest_skel : list N := [n_SaveTable; n_SaveTableIndex; n_SaveTableProfile].
+Definition prefix_recv_table_skel : list N := [n_SaveTable; n_IndexTable; n_ProfileTable].
 
 (* ------------------------------------------------------------------ worker interleavings *)
 
@@ -211,10 +263,11 @@ Inductive Interleave {A : Type} : list (list A) -> list A -> Prop :=
 (** a schedule picks one interleaving *)
 Definition schedule := list (list write) -> list write.
 Definition sequential : schedule := @concat write.
+Definition valid_sched (sched : schedule) : Prop := forall ls, Interleave ls (sched ls).
 
 (* ------------------------------------------------------------------ ingest *)
 
-Definition is_name (a b : string) : bool := String.eqb a b.
+Definition is_name (a b : N) : bool := N.eqb a b.
 
 Definition block_pair_writes (sk : skels) (p : N * N) : list write :=
   flat_map (fun nm =>
@@ -369,6 +422,16 @@ Fixpoint save_refs (s : state) (upd : list (N * cid * bool)) : list write * bool
       end
   end.
 
+(** fetchObjects: NewUploadPackSession wants the advertised commits that are not stored; with
+    nothing wanted no transfer takes place; otherwise the session ends without error only when
+    every wanted commit has been received and saved *)
+Definition fetch_objects (sk : skels) (dv : deriver) (s : state) (objs : list pobj)
+    (upd : list (N * cid * bool)) : list write * bool :=
+  if forallb (fun u => stored (snd (fst u)) s) upd then ([], true)
+  else
+    let '(ws, ok) := receive sk dv s objs in
+    (ws, ok && forallb (fun u => stored (snd (fst u)) (apply_all ws s)) upd).
+
 Definition fetch_writes (sk : skels) (dv : deriver) (s : state) (objs : list pobj)
     (upd : list (N * cid * bool)) : list write * bool :=
   fold_left (fun (acc : list write * bool) nm =>
@@ -376,9 +439,7 @@ Definition fetch_writes (sk : skels) (dv : deriver) (s : state) (objs : list pob
       if ok then
         let cur := apply_all ws s in
         if is_name nm n_fetchObjects then
-          let '(ws', ok') := receive sk dv cur objs in
-          (* the session ends without error only when every wanted commit has been saved *)
-          (ws ++ ws', ok' && forallb (fun u => stored (snd (fst u)) (apply_all ws' cur)) upd)
+          let '(ws', ok') := fetch_objects sk dv cur objs upd in (ws ++ ws', ok')
         else if is_name nm n_saveFetchedRefs then
           let '(ws', ok') := save_refs cur upd in (ws ++ ws', ok')
         else acc
@@ -478,6 +539,20 @@ Definition flag_of (r : N) (s : state) : bool :=
 Definition others_ok (s : state) (others : list cid) : bool :=
   forallb (fun c => stored c s && table_present (c_table c) s) others.
 
+(** runMerge with one other commit: nothing when it is the head itself; fast-forward (one ref
+    write) when one of the two contains the other; a real merge only when they diverged *)
+Definition diverged (h : cid) (others : list cid) : bool :=
+  match others with
+  | [o] => negb (cid_eqb h o) && negb (is_anc h o) && negb (is_anc o h)
+  | _ => true   (* several merge heads (pull): the base computation is C11's subject *)
+  end.
+
+Definition ff_writes (s : state) (r : N) (h o : cid) : list write * bool :=
+  if cid_eqb h o then ([], true)            (* "All commits are identical, nothing to merge" *)
+  else if is_anc h o then ([SetRefLog r o true], true)
+  else if is_anc o h then ([SetRefLog r h (flag_of r s)], true)
+  else ([], false).
+
 Definition op_writes (sk : skels) (dv : deriver) (sched : schedule) (s : state) (o : op) : list write * bool :=
   match o with
   | OCommit r t nonce => (commit_writes sk sched s r t nonce, true)
@@ -487,8 +562,10 @@ Definition op_writes (sk : skels) (dv : deriver) (sched : schedule) (s : state) 
       match head_of r s with
       | None => ([], false)
       | Some h =>
-          if others_ok s others
-          then (merge_commit_writes sk sched r (Cid t (h :: others) nonce), true)
+          if others_ok s others then
+            if diverged h others
+            then (merge_commit_writes sk sched r (Cid t (h :: others) nonce), true)
+            else match others with [o1] => ff_writes s r h o1 | _ => ([], false) end
           else ([], false)
       end
   | OMergeNoFF r other nonce =>
@@ -496,7 +573,8 @@ Definition op_writes (sk : skels) (dv : deriver) (sched : schedule) (s : state) 
       | None => ([], false)
       | Some h =>
           if others_ok s [other] then
-            if is_anc h other then (create_merge_writes sk r (Cid (c_table other) [h; other] nonce), true)
+            if cid_eqb h other then ([], true)
+            else if is_anc h other then (create_merge_writes sk r (Cid (c_table other) [h; other] nonce), true)
             else if is_anc other h then (create_merge_writes sk r (Cid (c_table h) [h; other] nonce), true)
             else ([], false)
           else ([], false)
@@ -504,12 +582,7 @@ Definition op_writes (sk : skels) (dv : deriver) (sched : schedule) (s : state) 
   | OMergeFF r other =>
       match head_of r s with
       | None => ([], false)
-      | Some h =>
-          if others_ok s [other] then
-            if is_anc h other then ([SetRefLog r other true], true)
-            else if is_anc other h then ([SetRefLog r h (flag_of r s)], true)
-            else ([], false)
-          else ([], false)
+      | Some h => if others_ok s [other] then ff_writes s r h other else ([], false)
       end
   | OFetch objs upd => fetch_writes sk dv s objs upd
   | OPrune => (prune_writes sk s, true)
@@ -517,6 +590,46 @@ Definition op_writes (sk : skels) (dv : deriver) (sched : schedule) (s : state) 
 
 Definition run_op (sk : skels) (dv : deriver) (sched : schedule) (s : state) (o : op) : state :=
   apply_all (fst (op_writes sk dv sched s o)) s.
+
+(** what the theorems assume about the environment of an operation and the code does not
+    check itself *)
+Definition op_pre (s : state) (o : op) : Prop :=
+  match o with
+  | OCommitTable _ t _ => In t (tables s)
+      (* commitWithTable is called with the table of the temp commit that was just made, or
+         whose table was just read back (getCommitTable) *)
+  | OMergeNoFF r _ _ => forall h, head_of r s = Some h -> In (c_table h) (tables s)
+      (* with ff=never and the other commit an ancestor of the head, createMergeCommit re-uses
+         the head's table; nothing checks that it exists *)
+  | _ => True
+  end.
+
+(** every state a history of operations can leave behind, each operation run to completion
+    (n >= number of writes) or cut by a crash / write error after n writes *)
+Inductive reach (sk : skels) (dv : deriver) : state -> Prop :=
+| reach_init : reach sk dv empty_state
+| reach_step : forall s o sched n,
+    reach sk dv s -> valid_sched sched -> op_pre s o ->
+    reach sk dv (crash n (fst (op_writes sk dv sched s o)) s).
+
+(** variants of the skeletons used by the [_refuted] witnesses *)
+Definition with_table_first (sk : skels) : skels :=
+  mkSkels prefix_ingest_skel (sk_insert_block sk) prefix_recv_table_skel (sk_index_table sk)
+    (sk_recv_commit sk) (sk_fetch sk) (sk_prune sk) (sk_prune_tables sk) (sk_prune_commit_order sk)
+    (sk_commit sk) (sk_commit_with_table sk) (sk_merge_result sk) (sk_create_merge sk).
+(** the commit-deletion loop ranging over commitsToRemove directly (key = hash order), the
+    tree before b7554dd *)
+Definition with_hash_order (sk : skels) : skels :=
+  mkSkels (sk_ingest sk) (sk_insert_block sk) (sk_recv_table sk) (sk_index_table sk)
+    (sk_recv_commit sk) (sk_fetch sk) (sk_prune sk) (sk_prune_tables sk) 0
+    (sk_commit sk) (sk_commit_with_table sk) (sk_merge_result sk) (sk_create_merge sk).
+(** a prune that deletes the commits first *)
+Definition with_commits_first (sk : skels) : skels :=
+  mkSkels (sk_ingest sk) (sk_insert_block sk) (sk_recv_table sk) (sk_index_table sk)
+    (sk_recv_commit sk) (sk_fetch sk)
+    [n_DeleteCommit; n_pruneTables; n_DeleteBlock; n_DeleteBlockIndex] (sk_prune_tables sk)
+    (sk_prune_commit_order sk)
+    (sk_commit sk) (sk_commit_with_table sk) (sk_merge_result sk) (sk_create_merge sk).
 
 (* ------------------------------------------------------------------ exchange-tree coders *)
 
@@ -642,7 +755,7 @@ Definition run_C13_sk (sk : skels) (c : tree) : tree :=
     let sn := crash n ws s0 in
     let '(ws2, ok2) := op_writes sk dv sequential sn o2 in
     let f2 := apply_all ws2 sn in
-    Node [t_bool (inv_b sn); t_bool (Bool.eqb ok2 ok && inv_b f2 && obs_eqb f2 final)] in
+    Node [t_bool (inv_b sn); t_bool (Bool.eqb ok2 ok && inv_b f2 && obs_eqb f2 final); Leaf 1] in
   Node [ Leaf (if ok then 0 else 1);
          Node (canon_trace ws);
          Node (map verdict (seq 0 (S (length ws))));
